@@ -44,6 +44,7 @@ func main() {
 	fixlist := flag.String("fixlist", "", "JSON file with a list of {harness,inputs,tag}: run each concretely")
 	noIfConv := flag.Bool("noifconv", false, "disable if-conversion (state merging of pure diamonds)")
 	guardsF := flag.String("guards", "", "guarded fields: Type:Field1+Field2:mutexField:Exempt1+Exempt2;...")
+	altModels := flag.Int("altmodels", 12, "further models requested for a violated obligation that depends on abstracted float rounding")
 	maxAlloc := flag.Int("maxalloc", 0, "assume symbolic-size allocations have at most this many elements (0 = no assumption)")
 	dump := flag.Bool("dump", false, "dump SSA of entry")
 	stubs := flag.String("stubs", "", "comma-separated name=kind extra stubs")
@@ -182,7 +183,7 @@ func main() {
 		if *fallbacks != "" {
 			sol.Fallbacks = strings.Split(*fallbacks, ",")
 		}
-		c := symex.Config{Unwind: *unwind, MaxPaths: *maxPaths, MaxSteps: *maxSteps, PanicMode: *panics, Fixed: fixed, Trace: *trace, Stubs: stubMap, SampleModels: *samples, Exclude: exclude, NoIfConv: *noIfConv, Guards: guards, MaxAlloc: *maxAlloc}
+		c := symex.Config{Unwind: *unwind, MaxPaths: *maxPaths, MaxSteps: *maxSteps, PanicMode: *panics, Fixed: fixed, Trace: *trace, Stubs: stubMap, SampleModels: *samples, Exclude: exclude, NoIfConv: *noIfConv, Guards: guards, MaxAlloc: *maxAlloc, AltModels: *altModels}
 		if *deadline > 0 {
 			c.Deadline = time.Now().Add(time.Duration(*deadline) * time.Second)
 		}
